@@ -331,7 +331,16 @@ where
     M::Terminal: crate::AsciiDisplay,
 {
     writeln!(file, ".ver {}", settings.version)?;
-    let ascii = settings.ascii || !ExportSettings::binary_supported(manager);
+    // Binary mode can only represent the terminal "T" (see the import). A
+    // manager for multi-terminal decision diagrams may currently hold a
+    // single terminal that is a different one.
+    let ascii = settings.ascii
+        || !ExportSettings::binary_supported(manager)
+        || !manager.terminals().all(|e| {
+            let is_t = Ascii(manager.get_node(&e).unwrap_terminal()).to_string() == "T";
+            manager.drop_edge(e);
+            is_t
+        });
     writeln!(file, ".mode {}", if ascii { 'A' } else { 'B' })?;
 
     // TODO: other .varinfo modes?
